@@ -1,0 +1,34 @@
+// SPDX-FileCopyrightText: 2026 The Pion community <https://pion.ly>
+// SPDX-License-Identifier: MIT
+
+//go:build verif && verif_c13 && !js
+
+package webrtc
+
+import "github.com/pion/sdp/v3"
+
+// VerifDTLSRole returns what DTLSTransport.role() answers on this connection's
+// own DTLS transport once the ICE transport has been given iceRole and the
+// remote DTLS parameters carry remoteRole (the two values startTransports
+// receives). Only for signalling-only harness runs (property C13).
+func (pc *PeerConnection) VerifDTLSRole(iceRole ICERole, remoteRole DTLSRole) DTLSRole {
+	pc.iceTransport.lock.Lock()
+	pc.iceTransport.role = iceRole
+	pc.iceTransport.lock.Unlock()
+
+	pc.dtlsTransport.lock.Lock()
+	defer pc.dtlsTransport.lock.Unlock()
+	pc.dtlsTransport.remoteParameters.Role = remoteRole
+
+	return pc.dtlsTransport.role()
+}
+
+// VerifDTLSRoleFromSDP exposes dtlsRoleFromSDP.
+func VerifDTLSRoleFromSDP(d *sdp.SessionDescription) DTLSRole {
+	return dtlsRoleFromSDP(d)
+}
+
+// VerifConnectionRoleFromDTLSRole exposes connectionRoleFromDtlsRole.
+func VerifConnectionRoleFromDTLSRole(r DTLSRole) sdp.ConnectionRole {
+	return connectionRoleFromDtlsRole(r)
+}
